@@ -192,9 +192,76 @@ func (c *ctl) dump() string {
 	for i, x := range cx {
 		cs[i] = strconv.Itoa(x)
 	}
-	return fmt.Sprintf("pp=%s ps=%s bp=%s bs=%s pat=%s bat=%s cx=[%s] n=%d", c.wlS(s.PeerPending), c.wlS(s.PeerSent),
+	sig := "-" // in loop mode the token is taken asynchronously: not compared
+	if !c.loop {
+		sig = strconv.Itoa(b2i(c.mq.VerifWorkSignalled()))
+	}
+	return fmt.Sprintf("pp=%s ps=%s bp=%s bs=%s pat=%s bat=%s cx=[%s] n=%d sig=%s ph=%d", c.wlS(s.PeerPending), c.wlS(s.PeerSent),
 		c.wlS(s.BcstPending), c.wlS(s.BcstSent), c.atS(s.PeerSentAt), c.atS(s.BcstSentAt), strings.Join(cs, ","),
-		maxPriority-int(s.Priority))
+		maxPriority-int(s.Priority), sig, c.phase)
+}
+
+func b2i(b bool) int {
+	if b {
+		return 1
+	}
+	return 0
+}
+
+// settle (loop mode): when a work signal is outstanding and the sender is idle, the real run loop must
+// take it (after its debounce timer at the latest) and enter sendMessage, where it parks at point 0.
+func (c *ctl) settle(o *vh.Out) {
+	if !c.loop || c.phase != phIdle {
+		return
+	}
+	if !c.tok {
+		select { // nothing expected; a stray wake-up shows as a model difference
+		case e := <-c.ev:
+			if e.kind == evPoint && e.point == 0 {
+				c.phase = phPre
+			}
+		default:
+		}
+		return
+	}
+	select {
+	case e := <-c.ev:
+		if e.kind != evPoint || e.point != 0 {
+			panic(fmt.Sprintf("expected the run loop at point 0, got %+v", e))
+		}
+		c.phase = phPre
+		c.tok = false
+	case <-time.After(3 * time.Second):
+		// the property: work that is left is never left unsent -- the loop must wake up for it
+		o.Fail("lost-wakeup", "work is queued (HasMessage=%v) but the run loop did not wake within 3 s", c.mq.HasMessage())
+		c.tok = false
+		c.lostWake = true
+	}
+}
+
+// endCycle (loop mode): sendMessage has returned to the run loop; work that is left must be signalled.
+func (c *ctl) endCycle() {
+	c.phase = phIdle
+	if c.loop && c.mq.HasMessage() {
+		c.tok = true
+	}
+}
+
+func (c *ctl) anySent(ks []cid.Cid) bool {
+	s := c.mq.VerifState()
+	for _, k := range ks {
+		for _, e := range s.PeerSent {
+			if e.Cid.Equals(k) {
+				return true
+			}
+		}
+		for _, e := range s.BcstSent {
+			if e.Cid.Equals(k) {
+				return true
+			}
+		}
+	}
+	return false
 }
 
 func (c *ctl) peerS() string {
@@ -264,6 +331,9 @@ func tick() time.Time {
 func (c *ctl) stepA() string {
 	switch c.phase {
 	case phIdle:
+		if c.loop {
+			return "noop"
+		}
 		c.start(c.mq.VerifSendMessage)
 		if e := c.wait(); e.kind != evPoint || e.point != 0 {
 			panic(fmt.Sprintf("expected point 0, got %+v", e))
@@ -303,17 +373,28 @@ func (c *ctl) stepC() string {
 		return "noop"
 	}
 	c.release <- struct{}{}
-	e := c.wait()
-	switch e.kind {
-	case evDone:
-		c.phase = phIdle
-		return "C empty"
-	case evSend:
-		c.phase = phFlight
-		c.flight = e.msg
-		return "C " + c.msgS(e.msg)
+	if e := c.wait(); e.kind != evPoint || e.point != 3 {
+		panic(fmt.Sprintf("expected point 3, got %+v", e))
 	}
-	panic(fmt.Sprintf("unexpected event after C: %+v", e))
+	if c.mq.VerifMsgEmpty() {
+		// sendMessage returns without sending
+		c.release <- struct{}{}
+		if !c.loop {
+			if e := c.wait(); e.kind != evDone {
+				panic(fmt.Sprintf("expected sendMessage to return, got %+v", e))
+			}
+		}
+		c.endCycle()
+		return "C empty"
+	}
+	c.release <- struct{}{}
+	e := c.wait()
+	if e.kind != evSend {
+		panic(fmt.Sprintf("unexpected event after C: %+v", e))
+	}
+	c.phase = phFlight
+	c.flight = e.msg
+	return "C " + c.msgS(e.msg)
 }
 
 func (c *ctl) stepD() string {
@@ -331,17 +412,48 @@ func (c *ctl) stepD() string {
 		}
 	}
 	c.release <- struct{}{}
-	if e := c.wait(); e.kind != evDone {
-		panic(fmt.Sprintf("expected sendMessage to return, got %+v", e))
+	if e := c.wait(); e.kind != evPoint || e.point != 4 {
+		panic(fmt.Sprintf("expected point 4, got %+v", e))
 	}
 	c.after = append(c.after, tick())
-	c.phase = phIdle
+	c.release <- struct{}{}
+	if !c.loop {
+		if e := c.wait(); e.kind != evDone {
+			panic(fmt.Sprintf("expected sendMessage to return, got %+v", e))
+		}
+	}
+	c.endCycle()
 	return "D " + c.peerS()
 }
 
 func (c *ctl) refresh(k int) string {
 	if c.phase != phIdle {
 		return "noop"
+	}
+	if c.loop {
+		// RebroadcastNow: the run loop refreshes every want that has a sentAt
+		st := c.mq.VerifState()
+		n := 0
+		for _, e := range st.PeerSent {
+			if _, ok := st.PeerSentAt[e.Cid]; ok {
+				n++
+			}
+		}
+		for _, e := range st.BcstSent {
+			if _, ok := st.BcstSentAt[e.Cid]; ok {
+				n++
+			}
+		}
+		c.mq.RebroadcastNow()
+		if n == 0 {
+			// barrier: a second request is only taken once the first has been handled
+			return "rf none"
+		}
+		if e := c.wait(); e.kind != evPoint || e.point != 0 {
+			panic(fmt.Sprintf("expected point 0 after RebroadcastNow, got %+v", e))
+		}
+		c.phase = phPre
+		return "rf pre"
 	}
 	if k < 0 {
 		k = 0
